@@ -344,3 +344,50 @@ class MetaCopy(Contract):
 
 from .c_meta import SSC as _SSC, _SeqSpecCheckLoop as _SSCL      # noqa: E402
 MetaCopy.loops = {_SSC: _SSCL()}
+
+
+# ====================================================================== copy() of a FROZEN message
+_FCOPY = Harness('''
+    def do(m, kw):
+        return m.copy(**kw)
+''')
+
+
+@contract
+class FrozenCopy(Contract):
+    """copy() on a frozen message (the track helpers copy every message they touch): a message of the matching - frozen -
+    class, equal to the original except for the overrides, a new object; no exception, original unchanged"""
+    key = 'C15.copy-of-a-frozen-message'
+    target = 'mido.messages.messages:Message.copy'
+    properties = ('C15',)
+    configs = tuple({'kind': k, 'override': o} for k in KINDS if not k.endswith('[list]') for o in ('none', 'time', 'time-skip-checks'))
+    use = ('mido.messages.checks:check_data',)
+    raises = {}
+
+    def callee(self, h, cfg):
+        return _FCOPY.get(h)
+
+    def inputs(self, h, cfg):
+        h.m, h.attrs0 = make_msg(h, cfg['kind'], True)
+        kw = {}
+        if cfg['override'] != 'none':
+            h.new_time = h.real('new_time')
+            kw['time'] = h.new_time
+        if cfg['override'] == 'time-skip-checks':
+            kw['skip_checks'] = True
+        return [h.m, kw], {}
+
+    def ensures(self, h, cfg, a, r):
+        want = dict(h.attrs0)
+        if cfg['override'] != 'none':
+            want['time'] = h.new_time
+        return {'matching-frozen-class': cls_of(r) is expected_class(cfg['kind'], True),
+                'fresh-object': r is not h.m and attrs_of(r) is not attrs_of(h.m),
+                'equal-to-the-original-with-the-overrides': equal_state(attrs_of(r), want)}
+
+    def frame(self, h, cfg, a):
+        return {'original-unchanged': unchanged(attrs_of(h.m), h.attrs0)}
+
+
+from .c_meta import SSC as _SSC3, _SeqSpecCheckLoop as _SSCL3      # noqa: E402
+FrozenCopy.loops = {_SSC3: _SSCL3()}
